@@ -24,6 +24,7 @@ import (
 
 	"github.com/dgraph-io/badger/v4/pb"
 	"github.com/dgraph-io/badger/v4/skl"
+	"github.com/dgraph-io/badger/v4/vhook"
 	"github.com/dgraph-io/badger/v4/y"
 	"github.com/dgraph-io/ristretto/v2/z"
 )
@@ -328,6 +329,7 @@ func (lf *logFile) writeEntry(buf *bytes.Buffer, e *Entry, opt Options) error {
 		return err
 	}
 	y.AssertTrue(plen == copy(lf.Data[lf.writeAt:], buf.Bytes()))
+	vhook.IO("mwrite-wal", lf.path, int64(lf.writeAt), int64(plen))
 	lf.writeAt += uint32(plen)
 
 	lf.zeroNextEntry()
@@ -541,8 +543,10 @@ func (lf *logFile) open(path string, flags int, fsize int64) error {
 	if ferr == z.NewFile {
 		if err := lf.bootstrap(); err != nil {
 			os.Remove(path)
+			vhook.IO("remove", path, 0, 0)
 			return err
 		}
+		vhook.IO("mwrite-header", path, 0, vlogHeaderSize)
 		lf.size.Store(vlogHeaderSize)
 
 	} else if ferr != nil {
